@@ -878,6 +878,9 @@ class Interp:
         if isinstance(e.op, ast.USub):
             if isinstance(v, Rat) or is_num(v):
                 return -v if isinstance(v, Rat) else -nf.frac(v)
+            h = getattr(v, "sim_neg", None)           # rule-supplied abstract values
+            if h is not None:
+                return h()
         if isinstance(e.op, ast.UAdd):
             return v
         raise self.err(f"unary operator on {v!r}", e, fi)
@@ -970,7 +973,13 @@ class Interp:
             return bool(self.compare(e.ops[0], left, right0, e, fi))
         for op, rexpr in zip(e.ops, e.comparators):
             right = self.eval(rexpr, env, fi)
-            ok = self.compare(op, left, right, e, fi)
+            ok = NotImplemented
+            for o in (left, right):
+                h = getattr(o, "sim_compare", None)
+                if h is not None and ok is NotImplemented:
+                    ok = h(op, left, right)
+            if ok is NotImplemented:
+                ok = self.compare(op, left, right, e, fi)
             if not ok:
                 return False
             left = right
@@ -1453,10 +1462,23 @@ def _i_sorted(it, args, kw, node, fi):
         raise it.err("sorted() of incomparable values", node, fi)
 
 
+def _sim_extreme(vals, pick):
+    """min / max over rule-supplied values that carry a concrete ordering key (`sim_key`); like the builtins, the first of
+    several equal extremes is returned."""
+    keys = [v.sim_key() if hasattr(v, "sim_key") else (nf.frac(v) if is_num(v) else None) for v in vals]
+    if any(k is None for k in keys) or not any(hasattr(v, "sim_key") for v in vals):
+        return NotImplemented
+    best = pick(keys)
+    return vals[keys.index(best)]
+
+
 def _i_min(it, args, kw, node, fi):
     vals = args if len(args) > 1 else it.iterate(args[0], node, fi)
     if all(is_num(v) for v in vals):
         return min(nf.frac(v) for v in vals)
+    r = _sim_extreme(list(vals), min)
+    if r is not NotImplemented:
+        return r
     return nf.fn("min", *sorted(vals, key=lambda v: repr(Rat.lift(v).key())))
 
 
@@ -1464,6 +1486,9 @@ def _i_max(it, args, kw, node, fi):
     vals = args if len(args) > 1 else it.iterate(args[0], node, fi)
     if all(is_num(v) for v in vals):
         return max(nf.frac(v) for v in vals)
+    r = _sim_extreme(list(vals), max)
+    if r is not NotImplemented:
+        return r
     return nf.fn("max", *sorted(vals, key=lambda v: repr(Rat.lift(v).key())))
 
 
